@@ -11,8 +11,11 @@ class Session:
     def __init__(self, machine='graph'):
         import fggs
         self.F = fggs
+        self.machine = machine
         if machine == 'graph':
             self.objs: Dict[str, Any] = {'g1': fggs.Graph(), 'g2': None}
+        elif machine == 'fgraph':
+            self.objs = {'g1': fggs.FactorGraph(), 'g2': None}
         else:
             self.objs = {'g1': fggs.Graph(), 'h1': None, 'h2': None}
         self.sharers = set()
@@ -57,12 +60,19 @@ class Session:
     def pgraph(self, g):
         if g is None:
             return {'k': 'none'}
-        return {'k': 'graph',
+        p = {'k': 'fgraph' if isinstance(g, self.F.FactorGraph) else 'graph',
                 'nodes': sorted((self.pnode(v) for v in g.nodes()), key=lambda d: (d['id'], d['l'])),
                 'edges': sorted((self.pedge(e) for e in g.edges()), key=lambda d: str(d)),
                 'ext': [self.pnode(v) for v in g.ext],
                 'nls': sorted(l.name for l in g.node_labels()),
                 'els': sorted((self.plabel(l) for l in g.edge_labels()), key=lambda d: str(d))}
+        if p['k'] == 'fgraph':
+            p['doms'] = [{'nl': n, 'dom': self.pdom(d)} for n, d in sorted(g.domains.items())]
+            p['facs'] = []
+            for n, f in sorted(g.factors.items()):
+                el = self.plabel(g.get_edge_label(n)) if g.has_edge_label_name(n) else {'name': n, 'type': ['?'], 't': True}
+                p['facs'].append({'el': el, 'fac': self.pfac(f)})
+        return p
 
     NOLABEL = {'name': '', 'type': [], 't': False}
 
@@ -205,7 +215,10 @@ class Session:
                 elif op == 'add_factor':
                     g.add_factor(self.label(c['el']), self.fac(c['fac']))
                 elif op == 'new':
-                    self.objs['g2'] = self.F.Graph()
+                    self.objs['g2'] = self.F.FactorGraph() if self.machine == 'fgraph' else self.F.Graph()
+                elif op == 'set_weights':
+                    import torch
+                    g.factors[c['name']].weights = torch.tensor([float(x) for x in c['w']], dtype=torch.get_default_dtype())
                 else:
                     raise RuntimeError('unknown op ' + op)
             return 'ok'
